@@ -594,5 +594,6 @@ func (m *model) Key() (string, error) {
 		return "hung:" + strings.Join(m.applied, ";"), nil
 	}
 	cfg, _ := os.ReadFile(filepath.Join(m.dir, "A", ".git", "config"))
+	cfg = bytes.ReplaceAll(cfg, []byte(m.dir), []byte("$WORLD")) // remote URLs embed the scratch directory
 	return m.w.Key("view\n"+v.Digest(), fmt.Sprint("removed ", m.removed, " told ", m.told, " edits ", m.nEdit), "config\n"+string(cfg))
 }
